@@ -223,8 +223,11 @@ public:
 
         bool advance_suspend_lk(Handle h, awaiter *awt) {
             subreg_t &l = _regs[h];
-            if (l._kicked || _closed) return false;
+            if (l._kicked) return false;
             l._pos++;
+            //closed in the meantime: the position must still move past the item already
+            //delivered, otherwise await_resume() would hand it out once more
+            if (_closed) return false;
             if (l._pos == _pos) {
                 l._awt = awt;
                 return true;
